@@ -16,6 +16,7 @@ import (
 	"flag"
 	"fmt"
 	"os"
+	"time"
 
 	"verif/minichain"
 	"verif/vk"
@@ -26,6 +27,7 @@ import (
 var (
 	onlyFamily = flag.String("c06-only", "", "run only the families whose name contains this string (debugging)")
 	probeFlag  = flag.String("c06-probe", "", "debugging: run one block given as JSON list of ops on the base state (flat) and print the outcome")
+	reproFlag  = flag.String("c06-repro", "", "stand-alone reproductions of the defects found: all|ring1|prefund|suicide|uincall (no oracle involved)")
 )
 
 func main() {
@@ -37,6 +39,10 @@ func main() {
 	}
 	if *probeFlag != "" {
 		probe(*probeFlag)
+		return
+	}
+	if *reproFlag != "" {
+		repro(*reproFlag)
 		return
 	}
 	if r.ReplayPath != "" {
@@ -58,7 +64,7 @@ func main() {
 		for _, trie := range []bool{false, true} {
 			b := base(trie)
 			for _, v := range b.viol {
-				r.Violation(v.Key, v.What, map[string]interface{}{"search": "setup", "trie": trie, "setup": "see setupBlocks() in harness/cmd/c06/world.go"})
+				report(v.Key, v.What, map[string]interface{}{"search": "setup", "trie": trie, "setup": "see setupBlocks() in harness/cmd/c06/world.go"})
 			}
 			rootKeys[trie] = b.snap.key
 		}
@@ -76,7 +82,9 @@ func main() {
 		if *onlyFamily != "" && !contains(name, *onlyFamily) {
 			continue
 		}
+		t0 := time.Now()
 		res := explore(r, f, rootKeys[f.Trie])
+		wall := time.Since(t0).Seconds()
 		states += res.States
 		trans += res.Transitions
 		tampers += res.Stats["tampers"]
@@ -84,10 +92,11 @@ func main() {
 		per = append(per, map[string]interface{}{"search": f.Name, "trie": f.Trie, "alphabet_ops": len(f.Ops), "blocks_alphabet": len(f.blocks()),
 			"max_txs_per_block": f.MaxTx, "depth": f.Depth, "depth_completed": res.DepthCompleted, "states": res.States, "per_depth": res.PerDepth,
 			"transitions": res.Transitions, "disabled_candidates": res.Disabled, "blocks_committed": res.Committed, "blocks_rejected": res.Rejected,
-			"stats": sortedStats(res.Stats)})
-		fmt.Printf("%-14s ops=%d blocks=%d depth=%d/%d states=%d %v transitions=%d committed=%d rejected=%d disabled=%d tampers=%d\n", f.Name, len(f.Ops), len(f.blocks()),
-			res.DepthCompleted, f.Depth, res.States, res.PerDepth, res.Transitions, res.Committed, res.Rejected, res.Disabled, res.Stats["tampers"])
+			"stats": sortedStats(res.Stats), "wall_s": int(wall)})
+		fmt.Printf("%-14s ops=%d blocks=%d depth=%d/%d states=%d %v transitions=%d committed=%d rejected=%d disabled=%d tampers=%d wall=%.0fs\n", f.Name, len(f.Ops), len(f.blocks()),
+			res.DepthCompleted, f.Depth, res.States, res.PerDepth, res.Transitions, res.Committed, res.Rejected, res.Disabled, res.Stats["tampers"], wall)
 	}
+	flush(r)
 	r.Set("searches", per)
 	r.Set("states", states)
 	r.Set("transitions", trans)
